@@ -25,7 +25,7 @@ BUDGET = {"quick": (320, 4), "thorough": (6400, 16)}
 @st.composite
 def step(draw):
     k = draw(st.sampled_from(["dumps", "call", "call", "graph", "graph", "match", "match", "read", "mutate", "mutate"]))
-    return {"k": k, "i": draw(st.integers(0, 7)), "j": draw(st.integers(0, 7)), "how": draw(st.integers(0, 7)),
+    return {"k": k, "i": draw(st.integers(0, 7)), "j": draw(st.integers(0, 7)), "how": draw(st.integers(0, 10)),
             "vals": draw(st.lists(st.floats(min_value=-3, max_value=3, allow_nan=False).filter(lambda x: abs(x) > 0.01), min_size=1, max_size=5))}
 
 
@@ -104,6 +104,16 @@ def _mutate(p, how, vals):
         if p.programtype["name"] is None:
             p.programtype["name"] = "machinetype"
         return "type-option"
+    if how in (9, 10):
+        # edit a register transform in place (its attributes are plain Python objects)
+        for o in ops:
+            for a in list(o.get("args", [])) + list((o.get("kwargs") or {}).values()):
+                if type(a).__name__ == "RegRefTransform":
+                    if how == 9:
+                        a.regrefs.append(99)
+                        return "transform-regrefs-append"
+                    a.func_str = "edited"
+                    return "transform-func_str"
     ops.append({"op": "MachineOp", "modes": [0]})
     return "append-operation"
 
